@@ -1,5 +1,6 @@
 """C14 — diagnostics point at the offending construct in the user's own file."""
 
+from props import C19
 THEOREM_MODULES = ["Hcl.Theorems.C14", "Hcl.Tie.PinsIo"]
 THEOREMS = {"Hcl.Theorems.C14": ["C14_file", "C14_file_builtin", "C14_line", "C14_region", "C14_region_y86",
                                  "C14_preamble_ends_line", "C14_preamble_utf8",
@@ -93,4 +94,6 @@ def streams(tier, seed):
             {"name": "parse", "stream": "parse", "count": 2000 if q else 100000, "judge": judge_parse},
             # the spans of the tokens themselves (the tie of C14_token_spans): real lexer against the lexer model
             {"name": "lex", "stream": "lex", "count": 3000 if q else 200000, "judge": judge_lex},
-            {"name": "literal", "stream": "literal", "count": 2000 if q else 100000, "judge": judge_lex}]
+            {"name": "literal", "stream": "literal", "count": 2000 if q else 100000, "judge": judge_lex},
+            # what the user sees goes through the command line and the two files: the real binary on accepted, rejected, big, not-UTF-8, bare-CR files, good and malformed images, all options and TIMEOUT forms (as in C19)
+            {"name": "cli", "stream": "cli", "count": 200 if q else 5000, "pygen": C19.pygen, "judge": C19.judge}]
